@@ -433,7 +433,7 @@ def b_sym_int(E, st, fr, ins, args):
         if not (lo <= v <= hi):
             raise PathEnd('infeasible')
         return v & _mask(64)
-    if lo == hi:
+    if lo == hi or E.opts.get('concrete_defaults'):
         st.inputs[name] = lo
         return lo & _mask(64)
     if name in st.inputs:
@@ -450,6 +450,11 @@ def b_sym_real(E, st, fr, ins, args):
     name = E.cstring(st, args[0])
     if name in E.fixed:
         v = Fraction(E.fixed[name])
+        st.inputs[name] = v
+        return v
+    if E.opts.get('concrete_defaults'):
+        from .runner import default_real
+        v = Fraction(default_real(name))
         st.inputs[name] = v
         return v
     if name in st.inputs:
